@@ -1648,7 +1648,7 @@ static void emit_data(Obj *prog) {
       ? MAX(16, var->align) : var->align;
 
     // Common symbol
-    if (opt_fcommon && var->is_tentative) {
+    if (opt_fcommon && var->is_tentative && !var->is_tls) {
       println("  .comm %s, %d, %d", var->name, var->ty->size, align);
       continue;
     }
